@@ -177,7 +177,13 @@ def _shp(gj):
 # ---------------------------------------------------------------- implementation adapters
 NAMES = {"tb": "time_buffer", "fb": "freq_buffer"}
 SHAPES = ("kw", "pos", "kwrev", "mixed", "omit")
-NUMS = ("float", "int", "np64", "np32", "npint", "bool")
+NUMS = ("float", "int", "np64", "np32", "npint", "bool",
+        # numpy scalars as they come out of typed arrays / parsed headers: unsigned integers (unary minus and
+        # subtraction wrap around in their own type), narrow signed integers, narrow floats
+        "npu8", "npu16", "npu32", "npu64", "npi8", "npi16", "npi32", "npf16")
+_NP_INTS = {"npu8": ("uint8", 0, 2 ** 8), "npu16": ("uint16", 0, 2 ** 16), "npu32": ("uint32", 0, 2 ** 32),
+            "npu64": ("uint64", 0, 2 ** 64), "npi8": ("int8", -2 ** 7, 2 ** 7), "npi16": ("int16", -2 ** 15, 2 ** 15),
+            "npi32": ("int32", -2 ** 31, 2 ** 31)}
 PATHS = ("validate", "ctor", "mv", "json", "jsonrt", "copy", "deepcopy", "pycopy", "tuple", "intcoords", "npcoords", "subclass")
 
 
@@ -208,6 +214,10 @@ def _repr_num(q, kind):
         return np.float64(x)
     if kind == "np32" and float(np.float32(x)) == x:
         return np.float32(x)
+    if kind in _NP_INTS and q.denominator == 1 and _NP_INTS[kind][1] <= q < _NP_INTS[kind][2]:
+        return getattr(np, _NP_INTS[kind][0])(int(q))
+    if kind == "npf16" and abs(x) <= 2048 and float(np.float16(x)) == x:
+        return np.float16(x)
     return x
 
 
@@ -1822,7 +1832,12 @@ _VARIANT_GEOMS = {
 _NUM_VALUES = {"float": [(Fraction(3, 8), Fraction(5, 2)), (0, Fraction(5, 2)), (Fraction(3, 8), 0)],
                "np64": [(Fraction(3, 8), Fraction(5, 2)), (0, Fraction(1, 2)), (Fraction(7, 4), 0)],
                "np32": [(Fraction(1, 2), Fraction(3, 4)), (0, Fraction(3, 4)), (Fraction(1, 2), 0)],
-               "int": [(3, 5), (0, 7), (3, 0)], "npint": [(3, 5), (0, 7), (5, 0)], "bool": [(1, 1), (0, 1), (1, 0)]}
+               "int": [(3, 5), (0, 7), (3, 0)], "npint": [(3, 5), (0, 7), (5, 0)], "bool": [(1, 1), (0, 1), (1, 0)],
+               "npu8": [(1, 3), (0, 5), (3, 0)], "npu16": [(3, 300), (0, 7), (1, 0)], "npu32": [(1, 5), (0, 70000), (3, 0)],
+               "npu64": [(3, 1), (0, 7), (5, 0)], "npi8": [(3, 5), (0, 1), (7, 0)], "npi16": [(1, 300), (0, 3), (5, 0)],
+               "npi32": [(5, 3), (0, 70000), (1, 0)],
+               # binary16: buffers whose reciprocal (the scale factor of the pipeline) is exact in that type too
+               "npf16": [(Fraction(1, 2), Fraction(1, 4)), (0, 2), (Fraction(1, 8), 0)]}
 
 
 def variant_cases(rng, full=False):
@@ -1837,6 +1852,10 @@ def variant_cases(rng, full=False):
                     if not full and j != (i + SHAPES.index(sh)) % 3:
                         continue
                     yield {**_case(g, tb, fb), "how": {"shape": sh, "nt": nt, "nf": nf}}
+        # both buffers in the same representation (two entries of one typed array), every zero / positive pattern
+        for i, nt in enumerate(NUMS):
+            for j, (tb, fb) in enumerate(_NUM_VALUES[nt]):
+                yield {**_case(g, tb, fb), "how": {"shape": SHAPES[(i + j) % len(SHAPES)], "nt": nt, "nf": nt}}
         for k, path in enumerate(PATHS):
             for j, (tb, fb) in enumerate(_NUM_VALUES["float"]):
                 yield {**_case(g, tb, fb), "how": {"shape": SHAPES[(k + j) % len(SHAPES)], "path": path}}
